@@ -102,6 +102,50 @@ pub fn check_batch(piece: Piece, from: Square, to: u64, all_queries: bool, sink:
         if gs != ws {
             problems.push(("iteration", format!("iteration yields {} moves {:?}..., expected {} moves", got.len(), got.iter().take(6).map(|m| m.to_string()).collect::<Vec<_>>(), want.len())));
         }
+        // the provided Iterator consumers must agree with next() from every partially consumed
+        // state (count, last, nth, fold / for_each)
+        if want.len() <= 64 {
+            let mut it2 = pm.into_iter();
+            for k in 0..=got.len().min(want.len()) {
+                if k <= 6 || k + 2 >= want.len() {
+                    let rest: Vec<(u8, u8, u8)> = got.iter().skip(k).map(key).collect();
+                    // PieceMovesIter is not Clone: a fresh iterator in the same state = a new iterator
+                    // of the same batch advanced by the same number of next() calls
+                    struct Fresh(PieceMoves, usize);
+                    impl Fresh {
+                        fn fresh(&self) -> PieceMovesIter {
+                            let mut f = self.0.into_iter();
+                            for _ in 0..self.1 {
+                                f.next();
+                            }
+                            f
+                        }
+                    }
+                    let base = Fresh(pm, k);
+                    if base.fresh().count() != rest.len() {
+                        problems.push(("consumers", format!("after {} next(): count() = {}, next() yields {} more", k, base.fresh().count(), rest.len())));
+                    }
+                    if base.fresh().last().map(|m| key(&m)) != rest.last().copied() {
+                        problems.push(("consumers", format!("after {} next(): last() disagrees with next()", k)));
+                    }
+                    let mut folded: Vec<(u8, u8, u8)> = Vec::with_capacity(rest.len());
+                    base.fresh().for_each(|m| folded.push(key(&m)));
+                    if folded != rest {
+                        problems.push(("consumers", format!("after {} next(): for_each delivers {} moves, next() delivers {}", k, folded.len(), rest.len())));
+                    }
+                    for n in [0usize, 1, 3, rest.len().saturating_sub(1), rest.len(), rest.len() + 1, 1 << 32, (1usize << 32) + 1, usize::MAX] {
+                        let w = rest.get(n).copied();
+                        if base.fresh().nth(n).map(|m| key(&m)) != w {
+                            problems.push(("consumers", format!("after {} next(): nth({}) disagrees with next()", k, n)));
+                            break;
+                        }
+                    }
+                }
+                if it2.next().is_none() {
+                    break;
+                }
+            }
+        }
         // membership
         let froms: Vec<u8> = if all_queries { (0..64).collect() } else { vec![from as u8, from as u8 ^ 1, from as u8 ^ 56] };
         let mut queries = 0u64;
